@@ -42,6 +42,21 @@ func c06Universe(pt string, arity int) c06Uni {
 	return u
 }
 
+// a universe for the priority model (p = priority, sub, obj, act, eft): insertion in front of
+// listed rules (lower priority value), ties, and a rule that sorts last
+func c06PrioUniverse(pt string) c06Uni {
+	u := c06Uni{Pt: pt}
+	u.Rules = [][]string{{"2", "a", "x", "r", "allow"}, {"1", "a", "y", "r", "deny"}, {"1", "b", "x", "r", "allow"}, {"3", "b", "y", "r", "deny"}}
+	u.Filts = []mOp{
+		{Kind: "removefiltered", Pt: pt, Fi: 1, Fvs: []string{"a"}},
+		{Kind: "removefiltered", Pt: pt, Fi: 1, Fvs: []string{"", "x"}},
+		{Kind: "removefiltered", Pt: pt, Fi: 0, Fvs: []string{"1"}},
+		{Kind: "removefiltered", Pt: pt, Fi: 1, Fvs: []string{"b", "y"}},
+		{Kind: "removefiltered", Pt: pt, Fi: 1, Fvs: []string{"c"}},
+	}
+	return u
+}
+
 func (u c06Uni) alphabet() (ops []mOp, inGuard []bool) {
 	R := u.Rules
 	add := func(o mOp, g bool) { ops = append(ops, o); inGuard = append(inGuard, g) }
@@ -68,6 +83,15 @@ func (u c06Uni) alphabet() (ops []mOp, inGuard []bool) {
 	um := [][4]int{{0, 1, 2, 3}, {2, 3, 0, 1}, {0, 2, 1, 3}, {1, 3, 0, 2}, {3, 0, 2, 1}}
 	for _, q := range um {
 		add(mOp{Kind: "updatemany", Pt: u.Pt, R1: [][]string{R[q[0]], R[q[1]]}, R2: [][]string{R[q[2]], R[q[3]]}}, true)
+	}
+	// batches with an identity pair / a chain (outside the F08 guard when the rules are listed:
+	// compared with the model only).  With two pairs the rollback touches at most one slot, so
+	// the Go map order of the rollback loop cannot show.
+	for _, q := range [][4]int{{0, 1, 0, 2}, {1, 0, 2, 0}, {0, 1, 1, 2}, {2, 3, 3, 2}} {
+		add(mOp{Kind: "updatemany", Pt: u.Pt, R1: [][]string{R[q[0]], R[q[1]]}, R2: [][]string{R[q[2]], R[q[3]]}}, true)
+	}
+	for i := range R {
+		add(mOp{Kind: "update", Pt: u.Pt, R1: [][]string{R[i]}, R2: [][]string{R[i]}}, true) // identity update
 	}
 	add(mOp{Kind: "updatemany", Pt: u.Pt, R1: [][]string{R[0]}, R2: [][]string{R[1], R[2]}}, true) // length mismatch
 	for _, f := range u.Filts {
@@ -195,9 +219,12 @@ func init() {
 			pt   string
 			ar   int
 		}
-		targets := []target{{machRBAC, "p2", 2}, {machRBAC, "p", 3}, {machRBAC, "g", 2}}
+		targets := []target{{machRBAC, "p2", 2}, {machRBAC, "p", 3}, {machRBAC, "g", 2}, {machRBAC, "g2", 2}, {machPriority, "p", 5}}
 		for _, t := range targets {
 			u := c06Universe(t.pt, t.ar)
+			if t.conf.Name == "priority" {
+				u = c06PrioUniverse(t.pt)
+			}
 			alpha, _ := u.alphabet()
 			// BFS over states; a state is identified by the listed rules of the real enforcer
 			type node struct{ path []mOp }
@@ -217,6 +244,12 @@ func init() {
 				n := queue[0]
 				queue = queue[1:]
 				nstates++
+				if nstates > 400 {
+					// a 4-rule universe has 65 ordered duplicate-free lists: far more reachable
+					// states mean that rules are listed more than once
+					c.Direct("c06."+t.pt+".states", "the state space of a 4-rule universe did not close (more than 400 distinct listings reached: rules are being listed more than once)", opsSx(n.path))
+					break
+				}
 				// listed rules in this state (replay)
 				m0 := newMach(t.conf, false, false, "none", nil)
 				for _, o := range n.path {
@@ -236,13 +269,20 @@ func init() {
 					}
 					if o.Kind == "updatemany" {
 						for _, nr := range o.R2 {
-							if containsRule(cur, nr) {
+							if containsRule(cur, nr) || containsRule(o.R1, nr) {
 								guard = false
 							}
 						}
 					}
-					if !guard && o.Kind == "updatemany" {
-						continue // the rollback order of an overlapping batch is a Go map order
+					if d := t.conf.Def(t.pt); d.Prio >= 0 && (o.Kind == "update" || o.Kind == "updatemany") {
+						for i := range o.R1 {
+							if i < len(o.R2) && o.R1[i][d.Prio] != o.R2[i][d.Prio] {
+								guard = false // F11: an update that changes the priority keeps the old slot
+							}
+						}
+					}
+					if !guard && o.Kind == "updatemany" && len(o.R1) > 2 {
+						continue // the rollback order of a longer overlapping batch is a Go map order
 					}
 					ops := append(append([]mOp(nil), n.path...), o)
 					id := fmt.Sprintf("c06.%s.s%d.o%d", t.pt, nstates, ai)
